@@ -16,7 +16,7 @@ Proof. unfold subst_all. rewrite fold_left_app. reflexivity. Qed.
 Lemma build_transform_ok fails toks ip nc evs t :
   build_transform fails toks ip nc = (evs, Ok t) ->
   t_copy t = (existsb is_in toks && negb nc)%bool /\ t_in_place t = ip /\
-  evs = [Spawn [] StdinInherit; Call (CMkdirAll PTmpDir)] /\
+  evs = [Spawn [] StdinNull; Call (CMkdirAll PTmpDir)] /\
   (ip = true -> existsb is_in toks = true).
 Proof.
   unfold build_transform, transform_new, windows. cbn [andb].
@@ -33,8 +33,8 @@ Qed.
 
 Lemma build_transform_err_events fails toks ip nc evs e :
   build_transform fails toks ip nc = (evs, Err e) ->
-  evs = [] \/ evs = [Spawn [] StdinInherit] \/
-  (evs = [Spawn [] StdinInherit; Call (CMkdirAll PTmpDir)] /\ fails SMkTmp = true).
+  evs = [] \/ evs = [Spawn [] StdinNull] \/
+  (evs = [Spawn [] StdinNull; Call (CMkdirAll PTmpDir)] /\ fails SMkTmp = true).
 Proof.
   unfold build_transform, transform_new, windows. cbn [andb]. rewrite andb_false_r.
   destruct (ip && negb (existsb is_in toks))%bool; [intros H; injection H as <- _; auto|].
@@ -513,3 +513,35 @@ Lemma mode_table_eq : mode_table =
         [CRemoveFile (PTmpOut 0); CCopy (POrig 0) (PTmpIn 0 0); CRemoveFile (PTmpIn 0 0)];
     ROk false (InNamed (POrig 0)) (OutInPlace (POrig 0)) [CRemoveFile (PTmpOut 0)] ].
 Proof. vm_compute. reflexivity. Qed.
+
+(* ---- a failing create_dir_all of the temp dir aborts the run --------------------------------- *)
+Lemma tmp_dir_failure_aborts fails g toks files :
+  g_transform g = Some toks -> fails SMkTmp = true ->
+  (exists e, snd (build_transform fails toks (g_in_place g) (g_no_copy g)) = Err e) /\
+  (forall c, In (Call c) (group_run fails g files) ->
+     c = CMkdirAll PTmpDir \/ (g_output g = true /\ c = CCreate POutFile)) /\
+  (forall args sin, In (Spawn args sin) (group_run fails g files) -> args = [] /\ sin = StdinNull).
+Proof.
+  intros Hg Hmk. unfold group_run, check_output. rewrite Hg.
+  assert (Hwr : forall c, In (Call c) (write_report g) -> g_output g = true /\ c = CCreate POutFile).
+  { unfold write_report. destruct (g_output g); cbn; [|intros ? []].
+    intros c' [H'|[]]; injection H' as <-; auto. }
+  assert (Hws : forall a s, ~ In (Spawn a s) (write_report g)).
+  { unfold write_report. destruct (g_output g); cbn; intros a s H; [destruct H as [H|[]]; discriminate|exact H]. }
+  destruct (build_transform fails toks (g_in_place g) (g_no_copy g)) as [evs [t|er]] eqn:Eb.
+  - exfalso. revert Eb. unfold build_transform, transform_new, windows. cbn [andb]. rewrite andb_false_r.
+    destruct (g_in_place g && negb (existsb is_in toks))%bool; [discriminate|].
+    destruct (is_nil toks); [discriminate|]. destruct (fails SProbe); [discriminate|].
+    rewrite Hmk. discriminate.
+  - split; [eexists; reflexivity|].
+    destruct (build_transform_err_events _ _ _ _ _ _ Eb) as [->|[->|[-> _]]]; split.
+    + intros c H. apply in_app_iff in H. destruct H as [H|[]]. right. auto.
+    + intros a s H. apply in_app_iff in H. destruct H as [H|[]]. destruct (Hws _ _ H).
+    + intros c H. apply in_app_iff in H. destruct H as [H|[H|[]]]; [right; auto|discriminate].
+    + intros a s H. apply in_app_iff in H. destruct H as [H|[H|[]]]; [destruct (Hws _ _ H)|].
+      injection H as <- <-. auto.
+    + intros c H. apply in_app_iff in H. destruct H as [H|[H|[H|[]]]]; [right; auto|discriminate|].
+      injection H as <-. left. reflexivity.
+    + intros a s H. apply in_app_iff in H. destruct H as [H|[H|[H|[]]]]; [destruct (Hws _ _ H)| |discriminate].
+      injection H as <- <-. auto.
+Qed.
